@@ -1724,6 +1724,13 @@ class Exec:
         names, stores, aug_only = self.assigned(n.body)
         tnames = {y.id for y in ast.walk(n.target) if isinstance(y, ast.Name)}
         mod_names = names - tnames
+        # objects first bound inside the loop and used after it (e.g. the loop variable rebound to a copy): pre-bound by the contract's
+        # factory so that invariants may mention them (guarded by `_k == 0 or ...`), havoced through the contract's obj_havoc model
+        for nm, fac in getattr(self.k, "loop_born", {}).items():
+            if nm in (names | tnames) and nm not in st.env:
+                st = st.fork()
+                st.env[nm] = fac(self, st, None)
+                mod_names = mod_names | {nm}
         # --- initialisation
         st0 = st.fork()
         st0.env[kname] = z3.IntVal(0)
